@@ -182,6 +182,27 @@ func addApiMethod(annotationName string) {
 		"DELETE":
 
 		currentRestAPI.HttpMethod = "DELETE"
+
+	case
+		"PatchMapping",
+		"RequestMethod.PATCH",
+		"PATCH":
+		currentRestAPI.HttpMethod = "PATCH"
+
+	case
+		"RequestMethod.HEAD",
+		"HEAD":
+		currentRestAPI.HttpMethod = "HEAD"
+
+	case
+		"RequestMethod.OPTIONS",
+		"OPTIONS":
+		currentRestAPI.HttpMethod = "OPTIONS"
+
+	case
+		"RequestMethod.TRACE",
+		"TRACE":
+		currentRestAPI.HttpMethod = "TRACE"
 	}
 }
 
